@@ -114,6 +114,13 @@ pub enum MFault {
         #[serde(with = "hexbytes")]
         bytes: Vec<u8>,
     },
+    /// record `rec` reads back as unrelated bytes (foreign / garbage sector)
+    #[serde(rename = "M-GARBAGE")]
+    Garbage {
+        rec: usize,
+        #[serde(with = "hexbytes")]
+        bytes: Vec<u8>,
+    },
     /// adversarial non-minimal re-encoding of record `rec` (format specific)
     #[serde(rename = "M-PAD0")]
     Pad0 { rec: usize },
@@ -129,6 +136,7 @@ impl MFault {
             MFault::Dup { .. } => "M-DUP",
             MFault::Tail { .. } => "M-TAIL",
             MFault::Field { .. } => "M-FIELD",
+            MFault::Garbage { .. } => "M-GARBAGE",
             MFault::Pad0 { .. } => "M-PAD0",
         }
     }
